@@ -197,6 +197,7 @@ pub fn main(spec_path: &str) {
     let mut indent_size: u8 = 2;
     let mut prompt_limit: usize = 100;
     let mut show_all = false;
+    let mut bell = true;
     let mut max_hist = 100usize;
     let mut printer = false;
     let mut pause = false;
@@ -251,6 +252,7 @@ pub fn main(spec_path: &str) {
             "indent_size" => indent_size = t[1].parse().unwrap(),
             "prompt_limit" => prompt_limit = t[1].parse().unwrap(),
             "show_all" => show_all = t[1] == "1",
+            "bell" => bell = t[1] == "1",
             "bind" => binds.push((parse_keys(t[1]), parse_cmd(&t[2..]))),
             // an SQLite history at this path: `history` lines are entered by an earlier session (the database is then
             // closed and reopened), `history2` lines by the session the reads run in
@@ -273,6 +275,7 @@ pub fn main(spec_path: &str) {
         .indent_size(indent_size)
         .completion_prompt_limit(prompt_limit)
         .completion_show_all_if_ambiguous(show_all)
+        .bell_style(if bell { rustyline::config::BellStyle::Audible } else { rustyline::config::BellStyle::None })
         .edit_mode(mode)
         .completion_type(completion)
         .keyseq_timeout(timeout)
